@@ -297,7 +297,11 @@ func (g *Gen) callFuncValue(e *Ev, fv Term, sig *types.Signature, args []Term, n
 	} else if !hasFlag(b, "nopanic") && !e.spec && !e.quiet {
 		pv := g.freshName("panics$fv")
 		e.st.declare(pv, sBool)
-		e.panicIf(pv, "function value "+key+" may panic", n)
+		var modItems []string
+		for _, c := range b.clauses("modifies") {
+			modItems = append(modItems, strings.Fields(c.Text)...)
+		}
+		e.calleePanic(pv, "function value "+key+" may panic", n, modItems, mk(pre, pre))
 	}
 	for _, c := range b.clauses("modifies") {
 		for _, h := range strings.Fields(c.Text) {
